@@ -34,6 +34,17 @@
    by one frame per task level, in call order, ending at the raising frame - never frames of earlier retrieval
    sites.
 
+   No source: `nosrc` is the set of levels whose functions are generated code (built with exec/compile from a
+   string: no source text can be retrieved for their frames).  Nothing in the prescriptions depends on it: the
+   stack still lists every level and the diagnostics never raise.
+
+   Hand-over: the creator chain may differ from the await chain.  hand = h: level h creates the task of level
+   h+1 but does not await it; it hands it to whoever awaits h (level h-1, or the top-level caller if h = 1) and
+   then completes - with a value (hend = "value") or by failing, the error being caught by the awaiter (hend =
+   "fail").  The awaiter then awaits the task of level h+1.  Level h+1 and everything below still has h in its
+   creator chain - whatever became of h -, while an exception raised below h never crosses h: the glued traceback
+   has one frame per level of the AWAIT chain (h is not in it).
+
    Prescriptions (the property): the exception that reaches the caller has a traceback with one frame per task
    level, in call order, ending at the raising frame; format_asynq_stack() = creator chain, outermost first -
    exactly the computation's own tasks, nothing from an earlier computation.
@@ -45,6 +56,8 @@ EnvInt(n, dflt) == IF n \in DOMAIN IOEnv THEN atoi(IOEnv[n]) ELSE dflt
 MaxD == EnvInt("MAXD", 4)
 Deep == EnvInt("DEEP", 0)            \* > 0: only chains of depth Deep, Deep \div 2 with at most one handler
 RetrD == EnvInt("RETRD", 3)          \* chains of depth <= RetrD are also asked for their outcome several times
+NoSrcD == EnvInt("NOSRCD", 3)        \* chains of depth <= NoSrcD are also built with generated (source-less) functions
+HandD == EnvInt("HANDD", 3)          \* chains of depth <= HandD are also run with a hand-over at every level
 PriorD == EnvInt("PRIORD", 3)        \* chains of depth <= PriorD are also run after every kind of earlier computation
 Stale == EnvInt("STALE", 0)          \* non-vacuity switch: 1 = a failed resume() leaves P2 active (TLC then refutes the stack invariants)
 
@@ -56,6 +69,7 @@ SiteBase == 500                      \* frame of the helper function in which re
 RetrSets(o) == IF o = 0
                THEN {<<"value", "value">>, <<"value", "error">>, <<"error", "value">>, <<"value", "value", "value">>}
                ELSE {<<"value", "value">>, <<"error", "value">>, <<"value", "yield">>, <<"value", "value", "yield">>}
+NoHand == 0 - 5
 P1 == 1001                           \* the tasks of the earlier computation
 P2 == 1002
 
@@ -70,10 +84,11 @@ Raisers(d) == IF Deep = 0 THEN 1..d ELSE {1, d \div 2, d} \cap (1..d)
 VARIABLES d, r, mode, sync, style, outer,     \* the chain (chosen in Init)
           prior, phandled,                     \* the earlier computation of the session (chosen in Init)
           retr,                                \* how the outcome of the top task is retrieved (chosen in Init)
+          nosrc, hand, hend,                   \* generated functions; hand-over level and what becomes of it (chosen in Init)
           pc, lvl, active, creator, exc, probes, outcome,
           rk, sights                           \* next retrieval, what every caught retrieval saw
-vars == <<d, r, mode, sync, style, outer, prior, phandled, retr, pc, lvl, active, creator, exc, probes, outcome, rk, sights>>
-cfgvars == <<d, r, mode, sync, style, outer, prior, phandled, retr>>
+vars == <<d, r, mode, sync, style, outer, prior, phandled, retr, nosrc, hand, hend, pc, lvl, active, creator, exc, probes, outcome, rk, sights>>
+cfgvars == <<d, r, mode, sync, style, outer, prior, phandled, retr, nosrc, hand, hend>>
 
 NoExc == [kind |-> "none", origin |-> 0, tb |-> <<>>]
 
@@ -82,6 +97,11 @@ Init == /\ d \in Depths /\ r \in Raisers(d) /\ mode \in ModeSets(r)
         /\ prior \in (IF Deep = 0 /\ d <= PriorD THEN {"none"} \cup Priors ELSE {"none"})
         /\ retr \in (IF Deep = 0 /\ d <= RetrD /\ prior = "none" THEN {<<"call">>} \cup RetrSets(outer) ELSE {<<"call">>})
         /\ rk = 1 /\ sights = <<>>
+        /\ nosrc \in (IF Deep = 0 /\ d <= NoSrcD /\ prior = "none" /\ retr = <<"call">>
+                      THEN {{}} \cup {{p} : p \in (1 - outer)..d} \cup {(1 - outer)..d} ELSE {{}})
+        /\ hand \in (IF Deep = 0 /\ d <= HandD /\ outer = 0 /\ prior = "none" /\ retr = <<"call">> /\ nosrc = {}
+                     THEN {NoHand} \cup {h \in 1..(d - 1) : h # r /\ (h < r => mode[h] = "pass")} ELSE {NoHand})
+        /\ hend \in (IF hand = NoHand THEN {"-"} ELSE {"value", "fail"})
         /\ phandled \in (IF prior \in {"none", "value"} THEN {"-"} ELSE {"task", "caller"})
         /\ pc = (IF prior = "none" THEN "down" ELSE "prior") /\ lvl = 1 - outer
         /\ active = NoTask
@@ -114,7 +134,9 @@ PriorDeliver ==    \* the earlier computation is over, whatever its outcome: not
 
 RaiseAt(i) == [kind |-> "E", origin |-> i, tb |-> IF style = "helper" THEN <<i, 0 - 1>> ELSE <<i>>]
 
-(* the body of level i starts: format_asynq_stack() is probed, the child task is created (creator = i) and awaited *)
+(* the body of level i starts: format_asynq_stack() is probed, the child task is created (creator = i) and awaited
+   (i = hand: the child is created, handed to the awaiter of i, i completes - hend - and the awaiter awaits the child:
+   the next body to start is the child's either way, and its creator is i) *)
 Enter == /\ pc = "down" /\ lvl < d
          /\ probes' = AddProbe(Born(lvl), lvl, "entry")
          /\ active' = lvl
@@ -131,7 +153,7 @@ Bottom == /\ pc = "down" /\ lvl = d
           /\ UNCHANGED <<cfgvars, outcome, rk, sights>>
 
 (* level lvl >= 1 gets the outcome of the child it awaits *)
-Up == /\ pc = "up" /\ lvl >= 1
+Up == /\ pc = "up" /\ lvl >= 1 /\ lvl # hand
       /\ IF exc.kind = "none"
          THEN /\ exc' = IF lvl = r THEN RaiseAt(lvl) ELSE NoExc
               /\ probes' = probes
@@ -144,6 +166,11 @@ Up == /\ pc = "up" /\ lvl >= 1
       /\ UNCHANGED <<cfgvars, pc, creator, outcome, rk, sights>>
 
 (* the outer task (level 0) called level 1 synchronously: a plain Python call, its frame is in front *)
+(* the level that handed its child over is not on the await chain: the child's outcome goes to the awaiter of that level *)
+UpSkip == /\ pc = "up" /\ lvl = hand
+          /\ lvl' = lvl - 1
+          /\ UNCHANGED <<cfgvars, pc, active, creator, exc, probes, outcome, rk, sights>>
+
 (* a caught retrieval of the top task's stored outcome (the top-level caller: all of them; the outer task: all
    but the last).  The stored error is not changed by being retrieved. *)
 Caught == IF outer = 0 THEN Len(retr) ELSE Len(retr) - 1
@@ -164,18 +191,19 @@ Deliver == /\ pc = "up" /\ lvl = 0 - outer /\ (outer = 1 \/ retr = <<"call">> \/
            /\ pc' = "done" /\ active' = NoTask
            /\ UNCHANGED <<cfgvars, lvl, creator, exc, probes, rk, sights>>
 
-Next == Retrieve \/ PriorRun \/ PriorFlush \/ PriorDeliver \/ Enter \/ Bottom \/ Up \/ UpOuter \/ Deliver
+Next == UpSkip \/ Retrieve \/ PriorRun \/ PriorFlush \/ PriorDeliver \/ Enter \/ Bottom \/ Up \/ UpOuter \/ Deliver
 Spec == Init /\ [][Next]_vars
 
 (* ---- the property, on the model ---- *)
 TaskFrames(tb) == SelectSeq(tb, LAMBDA x : x >= 0 /\ x < SiteBase)
+Awaiting(levels) == SelectSeq(levels, LAMBDA x : x # hand)       \* the levels of the await chain among `levels`
 (* C18.glue: while an exception is in flight its traceback has exactly one frame per level it has crossed,
    in call order, ending at the raising frame *)
 Glued == exc.kind # "none" =>
-           /\ TaskFrames(exc.tb) = [j \in 1..(exc.origin - lvl) |-> lvl + j]
+           /\ TaskFrames(exc.tb) = Awaiting([j \in 1..(exc.origin - lvl) |-> lvl + j])
            /\ exc.tb[Len(exc.tb)] = IF style = "helper" /\ exc.kind = "E" THEN 0 - 1 ELSE exc.origin
 GluedAtCaller == (pc = "done" /\ outcome[1] = "err") =>
-           TaskFrames(outcome[4]) = [j \in 1..(outcome[3] + outer) |-> j - outer]
+           TaskFrames(outcome[4]) = Awaiting([j \in 1..(outcome[3] + outer) |-> j - outer])
 (* C18.stack: a probe inside level i lists i and each task that created it, outermost first *)
 StackIsCreatorChain == \A n \in 1..Len(probes) :
            probes[n].stack = [j \in 1..(probes[n].lvl + outer) |-> j - outer]
@@ -195,5 +223,6 @@ EveryLevelProbed == (pc = "done" /\ Deep = 0) => {probes[n].lvl : n \in {m \in 1
 
 Export == (pc = "done") => PrintT(ToJson([d |-> d, r |-> r, mode |-> mode, sync |-> sync, style |-> style, outer |-> outer,
                                           prior |-> prior, phandled |-> phandled, retr |-> retr, sights |-> sights,
+                                          nosrc |-> nosrc, hand |-> hand, hend |-> hend,
                                           outcome |-> outcome, probes |-> probes]))
 =============================================================================
